@@ -18,8 +18,8 @@ HDR = 'celma/common/fixed_string.hpp'
 # --------------------------------------------------------------------------------------------
 # shadow extraction
 
-DROP_SIG = re.compile(r'iterator|initializer_list|template< size_t S>|::sprintf')
-DROP_BODY = re.compile(r'\bc?r?(begin|end)\(\)|const_iterator|iterator\(')
+DROP_SIG = re.compile(r'std::string::iterator|initializer_list|template< size_t S>|::sprintf')
+DROP_BODY = re.compile(r'initializer_list')
 ACCESSOR_DECL = re.compile(r'^   (const_)?(reverse_)?iterator c?r?(begin|end)\(\)( const)? noexcept;\n$')
 ACCESSOR_DEF = re.compile(r'FixedString< L>::c?r?(begin|end)\(\)\s*(const)?\s*(noexcept)?\s*$')
 
@@ -32,12 +32,15 @@ def extract(shadow):
         ci = s.index('template< size_t L> class FixedString')
         ce = s.index('}; // FixedString')
         head, cls, rest = s[:ci], s[ci:ce], s[ce:]
+        # commented-out members (block comments at line start) would be cut in half by the member-wise splitting
+        cls = re.sub(r'(?ms)^/\*\n.*?^\*/\n', '', cls)
+        rest = re.sub(r'(?ms)^/\*\n.*?^\*/\n', '', rest)
 
         def drop_decl(m):
             d = m.group(0)
             if ACCESSOR_DECL.search(d):
                 return d
-            if re.search(r'iterator|initializer_list|template< size_t S>|sprintf', d):
+            if re.search(r'std::string::iterator|initializer_list|template< size_t S>|sprintf', d):
                 dropped.append('decl: ' + ' '.join(d.split()))
                 return ''
             return d
@@ -64,12 +67,18 @@ def extract(shadow):
             keep.append(p)
         def itname(m):
             return 'detail::FixedString%sIterator' % ('Reverse' if m.group(2) else '')
-        cls = re.sub(r'^(   )(const_)?(reverse_)?iterator (c?r?(?:begin|end)\(\))', lambda m: '%sdetail::FixedString%sIterator %s' % (m.group(1), 'Reverse' if m.group(3) else '', m.group(4)), cls, flags=re.M)
         body = ''.join(keep)
         body, n1 = re.subn(r'typename FixedString< L>::(const_)?(reverse_)?iterator', itname, body)
-        body, n2 = re.subn(r'return (const_)?(reverse_)?iterator\(', lambda m: 'return ' + itname(m) + '(', body)
-        if (n1, n2) != (12, 12):
-            raise Undecided('extraction: iterator accessor rewriting fired %d / %d times, expected 12 / 12' % (n1, n2))
+        # every remaining use of the four alias names (declarations, parameters, temporaries) is spelled with the class name
+        cls, n2 = re.subn(r'(?<![:\w])(const_)?(reverse_)?iterator\b', itname, cls)
+        body, n3 = re.subn(r'(?<![:\w])(const_)?(reverse_)?iterator\b', itname, body)
+        # R-FRIENDOP: the iterator difference is a friend function defined inside the iterator class; the front end does not
+        # find it by argument-dependent lookup, the call is spelled out (same function, same arguments)
+        body, n4 = re.subn(r'\b(pos|position|first|last|last2) - (cbegin\(\)|first2?)(?=[;,)])', r'detail::FixedStringIterator::cv_diff( \1, \2)', body)
+        if not 10 <= n4 <= 16:
+            raise Undecided('extraction: R-FRIENDOP fired %d times (expected about 13)' % n4)
+        if not (12 <= n1 <= 24 and 40 <= n2 <= 70 and 25 <= n3 <= 60):
+            raise Undecided('extraction: iterator type-name rewriting fired %d / %d / %d times (expected about 16 / 55 / 33)' % (n1, n2, n3))
         return head + cls + body
 
     rules = [
@@ -78,6 +87,9 @@ def extract(shadow):
         Rule('drop-includes', r'^#include (<iostream>|<cstdarg>|<cstdio>|"celma/common/length_type.hpp"|'
              r'"celma/common/detail/fixed_string_iterator.hpp"|"celma/common/detail/fixed_string_reverse_iterator.hpp")\n', '', 6),
         Rule('CV_SIZE_TYPE', r'using size_type = typename LengthType< L>::type;', 'typedef CV_SIZE_TYPE size_type;', 1),
+        # R-CONDREF: symex aborts (address_arithmetic invariant) on a conditional expression of reference type whose arm is a call
+        # with class-type arguments; the one such return statement is written as if/return (same evaluation order, same result)
+        Rule('R-CONDREF', r'return \(str == nullptr\) \? \*this : (replace\( first, last, str, std::strlen\( str\)\));', r'if (str == nullptr) return *this; return \1;', 1),
         Rule('R-ACCESS', r'^private:', 'public:', 1),
         Rule('R-THROW', r'throw std::out_of_range\([^;]*\);', 'CV_THROW( 1);', 2, flags=re.M | re.S),
         # T-INST: the two-parameter free operator templates cannot be instantiated by the front end;
@@ -105,8 +117,8 @@ def extract(shadow):
     path = shadow.extract(HDR, rules, pre=pre)
     n_decl = sum(1 for d in dropped if d.startswith('decl'))
     n_def = sum(1 for d in dropped if d.startswith('def'))
-    if not (25 <= n_decl <= 40 and 25 <= n_def <= 40):
-        raise Undecided('extraction: dropped %d declarations / %d definitions of FixedString, expected about 31/30'
+    if not (20 <= n_decl <= 34 and 20 <= n_def <= 34):
+        raise Undecided('extraction: dropped %d declarations / %d definitions of FixedString, expected about 27/27'
                         % (n_decl, n_def))
     shadow.dropped += dropped
     extract_iterators(shadow)
@@ -134,6 +146,8 @@ def extract_iterators(shadow):
             Rule('R-NSDMI-ctor', r'(Iterator\( (?:bool, )?CV_FS\* obj\):\n\s*mpObject\( obj\))\n', r'\1, mIndex( EndValue)\n', 2),
             Rule('R-NSDMI-drop', r'^(   (?:CV_FS\*|size_t)\s+m\w+) = [^;]+;', r'\1;', 2),
             Rule('R-AUTO-self', r'auto  copy\( \*this\);', cls + '  copy( *this);', 2),
+            # R-FRIENDOP: the hidden friend becomes a static member with a callable name (same parameters, same body)
+            Rule('R-FRIENDOP', r'friend size_t operator -\(', 'static size_t cv_diff(', 1),
             Rule('R-ACCESS', r'^private:', 'public:', 1),
             Rule('R-THROW', r'throw std::(invalid_argument|range_error)\([^;]*\);', 'CV_THROW_IT( 1);', (3, 6), flags=re.M | re.S),
             Rule('R-PREPOST-pre', r'\( std::prefix\)', '()', 2), Rule('R-PREPOST-post', r'\( std::postfix\)', '( int)', 2)])
@@ -246,6 +260,7 @@ def wrappers_text(L, methods):
          '#define CV_L %d' % L, '#include <stdexcept>', '#include <iterator>', '#include <limits>', '#include "celma/common/pre_postfix.hpp"',
          '#include "%s"' % HDR,
          'typedef CV_FS FS;   /* = celma::common::FixedString< CV_L>, instantiated once at the end of the shadow header */',
+         '#define CV_IT(o, i) ((i) == 18446744073709551615UL ? (o)->cend() : celma::common::detail::FixedStringIterator( (o), (i)))',
          'extern "C" {',
          'size_t w_sizeof() { return sizeof(FS); }',
          'size_t w_length(const void* self) { return static_cast<const FS*>(self)->mLength; }',
@@ -274,7 +289,7 @@ def wrappers_text(L, methods):
         if m.raw:
             if m.ret == 'str':
                 params += ['char* out', 'size_t out_cap']
-            o.append('%s w_%s(%s) { %s %s }' % ({'v': 'void', 'B': 'int', 'z': 'size_t', 'str': 'size_t', 'c': 'char'}[m.ret], m.id, ', '.join(params), ' '.join(pre), m.raw.replace('{L}', str(L))))
+            o.append('%s w_%s(%s) { %s %s }' % ({'v': 'void', 'B': 'int', 'z': 'size_t', 'str': 'size_t', 'c': 'char', 'r': 'int'}[m.ret], m.id, ', '.join(params), ' '.join(pre), m.raw.replace('{L}', str(L))))
             continue
         if m.ret == 'r':
             body = ' '.join(pre) + ' FS& cv_r = %s; return &cv_r == static_cast<FS*>(self);' % call
@@ -660,6 +675,6 @@ def evidence_info(unit, tier):
         'assumptions': ['per-instance proof: capacities ' + ('3, 5' if c11 else '1, 2, 3, 8') + ' (quick); 255/256 and 65535/65536 length-type boundaries not reached',
                         'source C-strings / std::string arguments of length <= L+3 (bounded); (str,count) buffers of <= L+3 bytes',
                         'throw in at() modelled by R-THROW (flag + return)', 'termination not proved',
-                        'iterator-taking overloads (insert/erase/replace/append with iterators), cross-capacity (template<size_t S>) overloads, sprintf, the defaulted/move special members and stream output are not under contract (FixedString(const char*) and FixedString(const std::string&) are); the iterator classes themselves are (textual instantiation T := char, F := FixedString<L>)'],
+                        'the overloads taking std::string::iterator or std::initializer_list, the cross-capacity (template<size_t S>) overloads, sprintf, the defaulted/move special members and stream output are not under contract; the overloads taking FixedString iterators (insert/erase/replace/append), FixedString(const char*) and FixedString(const std::string&) are, and so are the iterator classes themselves (textual instantiation T := char, F := FixedString<L>)'],
         'not_under_contract': drops + ['FixedString() default constructor, copy constructor, destructor, copy assignment (all `= default`), move constructor (rvalue reference)'],
     }
